@@ -403,7 +403,10 @@ func genFacts() {
 				case *ast.FuncDecl:
 					before := len(fs.MapRangeSites)
 					scan(funcName(dd), dd)
-					if len(fs.MapRangeSites) > before || c11ModelledFuncs[funcName(dd)] {
+					// every function of the scanned packages is fingerprinted; the per-property lists of modelled functions
+					// live in tools/fingerprints.json (a changed fingerprint is evidence + a larger budget, never a verdict)
+					_ = before
+					if dd.Body != nil {
 						fs.Fingerprints[fname+"|"+funcName(dd)] = fingerprint(dd)
 					}
 				default:
